@@ -3,7 +3,7 @@
    Arrays are (length, index function) over Q; np.pad is an arbitrary function with the contract
    [np_contract]; exp is an arbitrary positive function. *)
 From Coq Require Import ZArith QArith List Bool Lia.
-From PB Require Import lib.PySlice C18.Model C18.SumQ C18.PadProofs C18.ConvProofs C18.Model2D C18.Proofs2D C18.DType C18.DTypeProofs C18.OwProofs.
+From PB Require Import lib.PySlice C18.Model C18.SumQ C18.PadProofs C18.ConvProofs C18.Model2D C18.Proofs2D C18.DType C18.DTypeProofs C18.OwProofs C18.LsqMin.
 Import ListNotations.
 Open Scope Z_scope.
 
@@ -335,3 +335,31 @@ Theorem C18_optimize_window_minclamp_refuted :
   optimize_window (fun _ => true) 1 3 12 0 = Ok 1.
 Proof. exact optimize_window_minclamp_refuted. Qed.
 Print Assumptions C18_optimize_window_minclamp_refuted.
+
+(* ---- global optimality: the fitted line IS the least-squares line ----
+   the model of Polynomial.fit(x, y, 1) minimises the sum of squared residuals over ALL lines a + b t
+   (whenever the abscissae are not all equal) *)
+Theorem C18_fit_minimises : forall (xs ys : vec) (l : line),
+  fit_line xs ys = Ok l -> ~ (sxx_of xs == 0)%Q ->
+  forall a b : Q,
+    (sumQ (Z.to_nat (vlen xs)) (fun k => (vget ys k - line_at l (vget xs k)) * (vget ys k - line_at l (vget xs k)))
+     <= sse (Z.to_nat (vlen xs)) (vget xs) (vget ys) a b)%Q.
+Proof. exact fit_minimises. Qed.
+Print Assumptions C18_fit_minimises.
+
+(* pad_edges 'extrapolate', arbitrary data, every N >= 2, pad >= 1, window >= 2 (also > N), either side:
+   the p added points lie on a line whose squared error at the min(w, N) neighbouring data points
+   (at their abscissae in the padded array) is <= that of EVERY other line *)
+Theorem C18_edge_minimises_squared_error : forall (y : vec) (p w : Z) (left : bool),
+  2 <= vlen y -> 1 <= p -> 2 <= w ->
+  let m := Z.min w (vlen y) in
+  let s := if left then 0 else vlen y - m in
+  exists e l, edge_side y p left w = Ok e /\ vlen e = p /\
+    (forall i, 0 <= i < p ->
+       (vget e i == line_at l (inject_Z (if left then i else vlen y + p + i)))%Q) /\
+    forall a b : Q,
+      (sumQ (Z.to_nat m) (fun k => (vget y (s + k) - line_at l (inject_Z (p + s + k)))
+                                   * (vget y (s + k) - line_at l (inject_Z (p + s + k))))
+       <= sse (Z.to_nat m) (fun k => inject_Z (p + s + k)) (fun k => vget y (s + k)) a b)%Q.
+Proof. exact pad_edge_minimises. Qed.
+Print Assumptions C18_edge_minimises_squared_error.
